@@ -110,32 +110,33 @@ def run(ctx):
                       "%s(%s=%d, %s=%d) returns %s; expected %s" %
                       (name, key, a, key, b, sorted(rets), {-1: "negative", 0: "zero", 1: "positive"}[want]))
     cl = prog.fn("cmp_loom_id", SYSC)
-    ok = any(n["k"] == "CallExpr" and n.get("callee") == "strcmp" and
-             all("id" in cl.src(a) for a in n["args"]) for n in cl.nodes)
-    ctx.check(ok, "R15.3", "cmp_loom_id:strcmp-of-ids", cl.loc(), "cmp_loom_id does not compare the loom ids")
+    from rules.strutil import FOLD
+    for (ia, ib) in (("loom.a.1", "loom.b.1"), ("loom.b.1", "loom.a.1"), ("loom.a.1", "loom.a.1"), ("loom.a.1", "loom.a.10")):
+        exl = absint.Explorer(prog, effects=eff, loop_bound=40, summaries=dict(FOLD))
+        outs_l = exl.run(cl, [PTR("LA"), PTR("LB")], {("LA", F("loom", "id")): ("str", ia), ("LB", F("loom", "id")): ("str", ib)})
+        rets = {o.ret for o in outs_l if o.kind == "ret"}
+        want = (ia > ib) - (ia < ib)
+        good = len(rets) == 1 and list(rets)[0][0] == "int" and ((list(rets)[0][1] > 0) - (list(rets)[0][1] < 0)) == want
+        ctx.check(good, "R15.3", "cmp_loom_id:%s-vs-%s" % (ia, ib), cl.loc(),
+                  "cmp_loom_id gives %s for loom ids '%s' and '%s'; looms without ranks are ordered by their id" %
+                  (sorted(rets, key=str), ia, ib))
 
-    def calls_under(f, ifnode_field, branch):
-        """callee names of calls inside the then/else subtree of the if testing field."""
-        out = set()
+    def used_when(f, field):
+        """{comparator name: set of truth values of <field> under which it is used}, from the CFG: which arm of
+        the test of that field dominates each reference (any form of the test: if/else, negation, early return)."""
+        out = {}
         for i, n in enumerate(f.nodes):
-            if n["k"] != "IfStmt":
-                continue
-            if not any(f.nodes[j]["k"] == "MemberExpr" and f.nodes[j]["field"] == ifnode_field
-                       for j in f.descendants(n["cond"])):
-                continue
-            sub = n["then"] if branch else n["else"]
-            if sub is None or sub < 0:
-                continue
-            for j in f.descendants(sub):
-                if f.nodes[j]["k"] == "CallExpr" and f.nodes[j].get("callee"):
-                    out.add(f.nodes[j]["callee"])
+            if n["k"] == "DeclRefExpr" and n.get("dk") == "fn":
+                g = f.guard_truth(i, field)
+                ctx.need(g is not None, "%s: cannot classify the test of %s that controls the use of %s" % (f.name, field, n["name"]))
+                out.setdefault(n["name"], set()).update({True, False} if g == "both" else {g})
         return out
     ls = prog.fn("loom_sort", "src/emu/loom.c")
-    t, e_ = calls_under(ls, "rank_enabled", True), calls_under(ls, "rank_enabled", False)
-    ctx.check("by_rank" in t and "by_pid" not in t and "by_pid" in e_ and "by_rank" not in e_, "R15.3",
+    uw = used_when(ls, "rank_enabled")
+    ctx.check(uw.get("by_rank") == {True} and uw.get("by_pid") == {False}, "R15.3",
               "loom_sort:procs-by-rank-or-pid", ls.loc(),
-              "with ranks the processes are sorted with %s, without with %s" % (sorted(t & {"by_rank", "by_pid"}),
-                                                                              sorted(e_ & {"by_rank", "by_pid"})))
+              "processes are sorted by_rank when rank_enabled is %s and by_pid when it is %s; expected by rank exactly "
+              "when ranks are enabled, by pid otherwise" % (sorted(uw.get("by_rank", ())), sorted(uw.get("by_pid", ()))))
     allc = {n.get("callee") for n in ls.nodes if n["k"] == "CallExpr"}
     ctx.check("by_phyid" in allc and "proc_sort" in allc, "R15.3", "loom_sort:cpus-by-phyid-and-procs", ls.loc(),
               "loom_sort no longer sorts the CPUs by physical id / the threads of each process")
@@ -143,11 +144,11 @@ def run(ctx):
     ctx.check("by_tid" in {n.get("callee") for n in ps.nodes if n["k"] == "CallExpr"}, "R15.3",
               "proc_sort:threads-by-tid", ps.loc(), "proc_sort does not sort the threads by TID")
     sl = prog.fn("sort_lpt", SYSC)
-    t, e_ = calls_under(sl, "sort_by_rank", True), calls_under(sl, "sort_by_rank", False)
-    ctx.check("cmp_loom_rank" in t and "cmp_loom_id" in e_ and "cmp_loom_id" not in t and "cmp_loom_rank" not in e_,
+    uw = used_when(sl, "sort_by_rank")
+    ctx.check(uw.get("cmp_loom_rank") == {True} and uw.get("cmp_loom_id") == {False},
               "R15.3", "sort_lpt:looms-by-rank-or-name", sl.loc(),
-              "looms are sorted with %s / %s" % (sorted(t & {"cmp_loom_rank", "cmp_loom_id"}),
-                                                 sorted(e_ & {"cmp_loom_rank", "cmp_loom_id"})))
+              "looms are sorted with cmp_loom_rank when sort_by_rank is %s and with cmp_loom_id when it is %s; expected "
+              "by rank exactly when sort_by_rank is set" % (sorted(uw.get("cmp_loom_rank", ())), sorted(uw.get("cmp_loom_id", ()))))
     ctx.check("loom_sort" in {n.get("callee") for n in sl.nodes if n["k"] == "CallExpr"}, "R15.3",
               "sort_lpt:sorts-each-loom", sl.loc(), "sort_lpt does not sort the contents of each loom")
     ssc = prog.fn("set_sort_criteria", SYSC)
